@@ -6,8 +6,8 @@ package keeper
 
 //@ define OWNER(c, i) = nftOwner[c, i]
 //@ define TOK(c, i) = get(nftTokens, c, i)
-//@ define META(t) = anyval("nft_types_NFTMetadata", t.Data)
-//@ define DMETA(cl) = anyval("nft_types_DenomMetadata", cl.Data)
+//@ define META(t) = anyval("types.NFTMetadata", t.Data)
+//@ define DMETA(cl) = anyval("types.DenomMetadata", cl.Data)
 //@ define KEEP = "[do-not-modify]"
 // nothing but token (c, i) changes in the token table, and its identity stays
 //@ define onlyToken(c, i) = nftTokens == set(old(nftTokens), c, i, TOK(c, i)) && TOK(c, i).Id == i && TOK(c, i).ClassId == c
@@ -77,4 +77,37 @@ package keeper
 //@   modifies nftTokens, nftOwner
 //@   ensures mint_restricted: err == nil && DMETA(get(nftClasses, msg.DenomId)).MintRestricted ==> msg.Sender == DMETA(get(nftClasses, msg.DenomId)).Creator
 //@   ensures minted: err == nil ==> !old(has(nftTokens, msg.DenomId, msg.Id)) && OWNER(msg.DenomId, msg.Id) == addr(msg.Recipient)
+//@ end
+
+// Message handlers: the authority that is checked is the message sender.
+//@ func Keeper.EditNFT
+//@   property C14
+//@   returns resp, err
+//@   modifies nftTokens
+//@   ensures owner_only: err == nil ==> addr(msg.Sender) == OWNER(msg.DenomId, msg.Id)
+//@   ensures not_restricted: err == nil ==> !DMETA(get(nftClasses, msg.DenomId)).UpdateRestricted
+//@ end
+
+//@ func Keeper.TransferNFT
+//@   property C14
+//@   returns resp, err
+//@   modifies nftTokens, nftOwner
+//@   ensures owner_only: err == nil ==> addr(msg.Sender) == old(OWNER(msg.DenomId, msg.Id))
+//@   ensures new_owner:  err == nil ==> nftOwner == store(old(nftOwner), nftkey(msg.DenomId, msg.Id), addr(msg.Recipient))
+//@   ensures restricted_keeps_metadata: err == nil && DMETA(get(nftClasses, msg.DenomId)).UpdateRestricted ==> nftTokens == old(nftTokens)
+//@ end
+
+//@ func Keeper.BurnNFT
+//@   property C14
+//@   returns resp, err
+//@   modifies nftTokens, nftOwner
+//@   ensures owner_only: err == nil ==> addr(msg.Sender) == old(OWNER(msg.DenomId, msg.Id))
+//@   ensures removed:    err == nil ==> nftTokens == del(old(nftTokens), msg.DenomId, msg.Id)
+//@ end
+
+//@ func Keeper.TransferDenom
+//@   property C14
+//@   returns resp, err
+//@   modifies nftClasses
+//@   ensures creator_only: err == nil ==> msg.Sender == DMETA(old(get(nftClasses, msg.Id))).Creator
 //@ end
